@@ -30,6 +30,8 @@ BOUND = ("(union) disjoint unions of two networks with <= 4 variables each (hand
          "1-2 sources), optionally with an independent extra module, plus seeded compositions - as (inputs) cases under every strategy and as (union) cases "
          "with a small independent partner under every strategy; "
          "(models) the published models with <= 12 (quick) / <= 16 (thorough) variables vs Attractors.attractors")
+BOUND += ("; (upstream) 7 hand-built networks in which the stable motifs of a block fix only latch variables while the negative feedback behind a motif-avoidant "
+          "attractor lies upstream in the same block - as (union) cases with a small partner under every strategy and, with a source, as (inputs) cases")
 RULE = "non-trivial = union: both parts have >= 2 variables; inputs: the sub-diagram below the valuation has >= 2 nodes; models: always"
 CASE_TIMEOUT = 120.0
 
@@ -93,8 +95,33 @@ def cond_cases(seed, tier):
             yield {"kind": "inputs", "net": name, "bnet": bnet, "strategy": strat}
 
 
+UPSTREAM = {
+    # a block whose stable motifs fix only latch variables (no negative cycle among them) while the negative feedback that drives a motif-avoidant attractor
+    # lies upstream of them in the same block (added after the round-5 seeded-change review: C18-m7)
+    "up_set": "A, !A & !B; B, !A & !B; C, C | (A & B)",
+    "up_set2": "A, !A & !B; B, !A & !B; C, C | (A & B); D, D | (A & B)",
+    "up_reset": "A, !A & !B; B, !A & !B; C, C & !(A & B)",
+    "up_pair": "A, !A & !B; B, !A & !B; C, D | (A & B); D, C",
+    "up_core": "A, (!A & !B) | C; B, (!A & !B) | C; C, A & B; D, D | (A & !B & !C & D)",
+    "up_gated": "A, !A & !B; B, !A & !B; C, C | (A & B & s); s, s",
+    "up_gated_neg": "A, !A & !B; B, !A & !B; C, C | (A & B) | !s; s, s",
+}
+
+
+def upstream_cases(seed, tier):
+    partners = {"switch": families.norm("M1, M2; M2, M1"), "sources1": families.norm("i0, i0"), "toggle": families.norm("T1, !T2; T2, !T1"), "osc": families.norm("O, !O")}
+    for k, (name, rules) in enumerate(UPSTREAM.items()):
+        bnet = families.norm(rules)
+        if "s, s" in rules:
+            for strat in INPUT_STRATS:
+                yield {"kind": "inputs", "net": name, "bnet": bnet, "strategy": strat}
+        for j, strat in enumerate(["build", "block", "scc", "aseeds", "bfs", "dfs"]):
+            pn = list(partners)[(k + j) % len(partners)]
+            yield {"kind": "union", "a": bnet, "b": partners[pn], "names": [name, pn], "strategy": strat}
+
+
 def cases(seed, tier):
-    yield from families.interleave((cond_cases(seed, tier), 2), (shape_cases(seed, tier), 2), (general_cases(seed, tier), 4))
+    yield from families.interleave((upstream_cases(seed, tier), 1), (cond_cases(seed, tier), 2), (shape_cases(seed, tier), 2), (general_cases(seed, tier), 4))
 
 
 def general_cases(seed, tier):
